@@ -27,18 +27,32 @@ type faultySink struct {
 	short    bool
 	n        int
 	recovers bool // only the k-th write fails
+	timeout  bool // the failure is an expired write deadline (net.Error, Timeout() == true)
 }
 
 var errSink = errors.New("sink failure")
+
+type sinkTimeout struct{}
+
+func (sinkTimeout) Error() string   { return "sink: i/o timeout" }
+func (sinkTimeout) Timeout() bool   { return true }
+func (sinkTimeout) Temporary() bool { return true }
+
+func (s *faultySink) err() error {
+	if s.timeout {
+		return sinkTimeout{}
+	}
+	return errSink
+}
 
 func (s *faultySink) Write(p []byte) (int, error) {
 	s.n++
 	if s.failAt > 0 && (s.n == s.failAt || (!s.recovers && s.n > s.failAt)) {
 		if s.short {
 			s.writes = append(s.writes, append([]byte("SHORT:"), p[:len(p)/2]...))
-			return len(p) / 2, errSink
+			return len(p) / 2, s.err()
 		}
-		return 0, errSink
+		return 0, s.err()
 	}
 	s.writes = append(s.writes, append([]byte(nil), p...))
 	return len(p), nil
@@ -46,10 +60,10 @@ func (s *faultySink) Write(p []byte) (int, error) {
 
 var c02WriterOps = []string{"Start(D)", "AddInt16", "End", "AddString(ab)", "Start(Z)", "AddByte", "AddInt32", "AddBytes(3)", "AddNullTerminate", "Reset", "AddBytes(0)", "AddString()", "Error"}
 
-func c02RunWriter(ops []int, failAt int, short, recovers bool) explore.Result {
+func c02RunWriter(ops []int, failAt int, short, recovers bool, timeout ...bool) explore.Result {
 	var res explore.Result
 	res.Outcome = "writer"
-	sink := &faultySink{failAt: failAt, short: short, recovers: recovers}
+	sink := &faultySink{failAt: failAt, short: short, recovers: recovers, timeout: len(timeout) > 0 && timeout[0]}
 	w := buffer.NewWriter(harness.Quiet, sink)
 	var model []byte // body of the open frame
 	var mtype byte
@@ -114,7 +128,10 @@ func c02RunWriter(ops []int, failAt int, short, recovers bool) explore.Result {
 				frame := pgproto.Msg(mtype, model)
 				err := w.End()
 				failing := failAt > 0 && (ends == failAt || (!recovers && ends > failAt))
-				if failing {
+				if failing && short && recovers && err == nil && len(sink.writes) == len(wantWrites)+2 && bytes.Equal(sink.writes[len(sink.writes)-1], frame[len(frame)/2:]) {
+					// (a writer that completes a partially accepted frame with exactly its remainder delivers a whole message)
+					wantWrites = append(wantWrites, append([]byte("SHORT:"), frame[:len(frame)/2]...), frame[len(frame)/2:])
+				} else if failing {
 					if err == nil {
 						res.Fail("writer-end-error-lost", fmt.Sprintf("ops %v: the sink failed but End returned nil", names[:i+1]))
 					}
@@ -318,6 +335,19 @@ func c02Sessions(tier string) []c02Session {
 		out = append(out, c02Session{Name: fmt.Sprintf("statement declaring %d parameters", n), Params: true, Opts: []wire.OptionFn{wire.MessageBufferSize(1 << 20)},
 			Segs: [][]byte{start, pgproto.Parse("s", q), pgproto.Describe('S', "s"), pgproto.Sync(), pgproto.Query(progRows)}})
 	}
+	// (l) a statement is parsed, then more than an allocation granule (4 KiB, 8 KiB) of other messages arrives, then it
+	// is executed: its command tag / error text (texts the handler was handed long ago) must still be well-formed
+	for _, prog := range []string{"1:r,c=RETAINED-TAG-0123456789", "1:r,!retained error text 0123456789", "1:r,E63"} {
+		for _, f := range [][2]int{{25, 200}, {3, 1500}, {60, 150}, {12, 1000}} {
+			// (the messages in between are Binds of a value of zero bytes: whatever they overwrite turns into NULs)
+			segs := [][]byte{start, pgproto.Parse("s", prog), pgproto.Parse("z", "0:c=Z $1"), pgproto.Sync()}
+			for i := 0; i < f[0]; i++ {
+				segs = append(segs, pgproto.Bind("zp", "z", nil, [][]byte{make([]byte, f[1])}, nil))
+			}
+			segs = append(segs, pgproto.Bind("", "s", nil, nil, nil), pgproto.Describe('P', ""), pgproto.Execute("", 0), pgproto.Sync(), pgproto.Query(prog))
+			out = append(out, c02Session{Name: fmt.Sprintf("statement %q executed after %d Bind messages carrying %d zero bytes each", prog, f[0], f[1]), Params: true, Segs: segs})
+		}
+	}
 	// (k) more than one encryption request before the start-up packet: after the ONE answer byte only messages follow
 	for i, segs := range [][][]byte{
 		{pgproto.SSLRequest(), pgproto.SSLRequest(), start, pgproto.Query(progRows)},
@@ -469,6 +499,46 @@ func init() {
 	})
 }
 
+// c02RunRetained: the handler answers with texts it was handed earlier (the query text given to the parser is
+// echoed in the error / the command tag when the statement is finally executed). Between Parse and Execute the
+// client binds the statement to further portals with values of 0xAB / zero bytes (`large` + n x `zeros` bytes):
+// whatever the output carries, it is a well-formed message.
+func c02RunRetained(mode string, large, zeros, n int) explore.Result {
+	var res explore.Result
+	res.Outcome = "session"
+	res.Key = fmt.Sprint("retained", mode, large, zeros, n)
+	parse := func(ctx context.Context, q string) (wire.PreparedStatements, error) {
+		fail := strings.HasPrefix(q, "fail")
+		return wire.Prepared(wire.NewStatement(func(ctx context.Context, w wire.DataWriter, params []wire.Parameter) error {
+			if fail {
+				return errors.New(q)
+			}
+			return w.Complete(q)
+		}, wire.WithParameters(wire.ParseParameters(q)))), nil
+	}
+	one, err := harness.StartOne(parse)
+	if err != nil {
+		res.Engine = err.Error()
+		return res
+	}
+	defer one.Stop()
+	one.Step(pgproto.Startup("user", "u"))
+	q := mode + ": retained query text $1 0123456789"
+	one.Step(pgproto.Cat(pgproto.Parse("", q), pgproto.Bind("", "", nil, [][]byte{{0, 0, 0, 7}}, nil)))
+	if large > 0 {
+		one.Step(pgproto.Bind("large", "", nil, [][]byte{bytes.Repeat([]byte{0xAB}, large)}, nil))
+	}
+	for i := 0; i < n; i++ {
+		one.Step(pgproto.Bind("zeros", "", nil, [][]byte{make([]byte, zeros)}, nil))
+	}
+	one.Step(pgproto.Cat(pgproto.Execute("", 0), pgproto.Sync()))
+	one.Step(pgproto.Query(q))
+	if ms, perr := pgproto.ParseBackend(one.C.Output()); perr != nil {
+		res.Fail("malformed-backend-stream", fmt.Sprintf("a statement that echoes its query text (%s), bound to further portals with %d + %d x %d bytes of values before it is executed: %v\n  messages before: %v", mode, large, n, zeros, perr, tailStrings(pgproto.Strings(ms), 4)))
+	}
+	return res
+}
+
 func c02Depth(tier string) int {
 	if tier == "thorough" {
 		return 7
@@ -480,8 +550,10 @@ func c02Enumerate(tier string, emit explore.Emit) {
 	type sinkMode struct {
 		failAt          int
 		short, recovers bool
+		timeout         bool
 	}
-	modes := []sinkMode{{0, false, false}, {1, false, false}, {1, false, true}, {2, false, true}, {1, true, true}, {2, true, false}}
+	modes := []sinkMode{{0, false, false, false}, {1, false, false, false}, {1, false, true, false}, {2, false, true, false}, {1, true, true, false}, {2, true, false, false},
+		{1, true, true, true}, {2, true, true, true}, {1, false, true, true}}
 	forShapes(len(c02WriterOps), c02Depth(tier), func(sh []int) {
 		if len(sh) == 0 || !strings.HasPrefix(c02WriterOps[sh[0]], "Start") {
 			return // every documented use begins with Start
@@ -504,9 +576,9 @@ func c02Enumerate(tier string, emit explore.Emit) {
 					for i, o := range ops {
 						names[i] = c02WriterOps[o]
 					}
-					return map[string]any{"ops": names, "sink_fails_at_write": m.failAt, "short_write": m.short, "transient": m.recovers}
+					return map[string]any{"ops": names, "sink_fails_at_write": m.failAt, "short_write": m.short, "transient": m.recovers, "timeout_kind": m.timeout}
 				},
-				Run: func() explore.Result { return c02RunWriter(ops, m.failAt, m.short, m.recovers) }})
+				Run: func() explore.Result { return c02RunWriter(ops, m.failAt, m.short, m.recovers, m.timeout) }})
 		}
 	})
 	// F2
@@ -563,6 +635,20 @@ func c02Enumerate(tier string, emit explore.Emit) {
 					}
 					return res
 				}})
+		}
+	}
+	for _, mode := range []string{"fail", "tag"} {
+		for _, large := range []int{0, 3000, 3400, 3900} {
+			for _, zeros := range []int{100, 700, 1200, 3000} {
+				for n := 1; n <= 3; n++ {
+					mode, large, zeros, n := mode, large, zeros, n
+					emit(explore.Case{Family: "session", Size: 20,
+						Desc: func() any {
+							return map[string]any{"session": "a statement echoing its query text, executed after further Binds", "echo_in": mode, "bind_value_bytes": []int{large, zeros}, "zero_binds": n}
+						},
+						Run: func() explore.Result { return c02RunRetained(mode, large, zeros, n) }})
+				}
+			}
 		}
 	}
 	// F3
